@@ -824,6 +824,13 @@ def check_spec(spec):
                  "%s: %s" % (type(e).__name__, str(e)[:200]), "a fitted tree")], None
     if r is not model:
         bad.append(("DTLR.fit:return", "fit does not return self", repr(r)[:80], "self"))
+    if spec.get("params_changed_after_fit"):
+        # history: hyper-parameters are changed AFTER the fit (no refit): what predict_proba / decision_path / the
+        # index listing describe is still the fitted tree (the depth clause below keeps the max_depth of the fit)
+        try:
+            model.set_params(max_depth=1, min_samples_leaf=max(1, spec["n"] // 2))
+        except Exception:  # noqa: BLE001
+            pass
     nodes = preorder(model.tree_)
     byidx = {}
     for nd in nodes:
@@ -964,6 +971,8 @@ def search(ctx, hints):
             sp["labels_obj"] = list(rng.choice(SEARCH_LABELS))
         if t % 3 == 2:
             sp["used_before"] = True
+        if t % 5 == 4:
+            sp["params_changed_after_fit"] = True
         if t % 4 == 1:
             sp["via_set_params"] = True
             if t % 8 == 1:
